@@ -440,7 +440,11 @@ func (o *snapshotter) cleanupDirectories(ctx context.Context, cleanupCommitted b
 func (o *snapshotter) getCleanupDirectories(ctx context.Context, t storage.Transactor, cleanupCommitted bool) ([]string, error) {
 	ids, err := storage.IDMap(ctx)
 	if err != nil {
-		return nil, err
+		if !errdefs.IsNotFound(err) {
+			return nil, err
+		}
+		// No snapshot has ever been committed to this store; every directory is an orphan.
+		ids = map[string]string{}
 	}
 
 	snapshotDir := filepath.Join(o.root, "snapshots")
